@@ -116,8 +116,26 @@ def gen_levelset(rng, shape):
     return dict(type='sphere', center=c, radius=float(rng.uniform(.6, max(shape) * .8)), sign=int(rng.choice([-1, 1])))
 
 
+def gen_boundary(rng):
+    """boundary of a 2-D/3-D structured mesh: every subset of periodic axes that leaves a boundary, each named
+    side of a non-periodic axis, or (side -1) the whole boundary"""
+    nd = int(rng.choice([2, 3], p=[.6, .4]))
+    shape = [int(rng.integers(1, 5)) for _ in range(nd)] if nd == 2 else [int(rng.integers(1, 4)) for _ in range(nd)]
+    while True:
+        periodic = [d for d in range(nd) if rng.random() < .5]
+        if len(periodic) < nd:
+            break
+    base = dict(kind='struct', shape=shape, periodic=periodic, refine=0)
+    if rng.random() < .12:
+        return dict(kind='boundary', base=base, side=-1)
+    d = int(rng.choice([d for d in range(nd) if d not in periodic]))
+    return dict(kind='boundary', base=base, side=2 * d + int(rng.integers(0, 2)))
+
+
 def gen_spec(rng, tier):
     """Draw a topology spec.  Hierarchical patterns are filled in by ``build`` (they need element counts)."""
+    if rng.random() < .08:
+        return gen_boundary(rng)
     r = rng.random()
     if r < .34:
         return gen_struct(rng)
@@ -151,9 +169,7 @@ def gen_spec(rng, tier):
             spec['then_refine'] = dict(frac=float(rng.uniform(.2, .6)), pick=int(rng.integers(0, 2**31)))
         return spec
     if r < .97:
-        base = gen_struct(rng, nd=int(rng.choice([2, 3], p=[.7, .3])), allow_refine=False)
-        base.pop('slice', None)
-        return dict(kind='boundary', base=base, side=int(rng.integers(0, 2 * len(base['shape']))))
+        return gen_boundary(rng)
     f1 = gen_struct(rng, nd=1, allow_refine=False)
     f2 = gen_struct(rng, nd=int(rng.choice([1, 2], p=[.8, .2])), allow_refine=False) if rng.random() < .8 else dict(kind='simplex', variant='strip', nd=1, nverts=3)
     for f in (f1, f2):
@@ -204,16 +220,20 @@ def build(spec, space='X'):
         return T(topo=topo, kind=label, nd=len(shape), struct=dict(shape=shape, periodic=periodic), base=topo)
     if kind == 'boundary':
         b = build(spec['base'], space)
+        if spec['side'] < 0:
+            # the whole boundary (union of the sides); no structured constructor is reachable
+            return T(topo=b.topo.boundary, kind='struct%dd-boundary-all' % b.nd, nd=b.nd - 1)
         names = [n for pair in (('left', 'right'), ('bottom', 'top'), ('front', 'back')) for n in pair][:2 * b.nd]
         name = names[spec['side']]
         d = spec['side'] // 2
         if d in b.struct['periodic']:
             raise KeyError('periodic axis has no boundary')
         topo = b.topo.boundary[name]
+        # shape and periodic axes of the boundary as the mesh defines them (NOT read back from the topology: the bases
+        # built with the default periodic=None must agree with this)
         shape = [s for i, s in enumerate(b.struct['shape']) if i != d]
         periodic = [i - (i > d) for i in b.struct['periodic'] if i != d]
-        assert list(topo.shape) == shape and list(topo.periodic) == periodic, (topo.shape, shape, topo.periodic, periodic)
-        return T(topo=topo, kind='struct%dd-boundary' % b.nd, nd=b.nd - 1, struct=dict(shape=shape, periodic=periodic), base=topo)
+        return T(topo=topo, kind='struct%dd-boundary' % b.nd + ('-periodic' if periodic else ''), nd=b.nd - 1, struct=dict(shape=shape, periodic=periodic), base=topo)
     if kind == 'simplex':
         v = spec['variant']
         if v == 'unitsquare':
